@@ -295,6 +295,29 @@ def t_generic(ctx, ty):
 GROUP_TYPES = r"^(futures_unordered_bounded::FuturesUnorderedBounded|merge_bounded::MergeBounded)<"
 
 
+def _replaces_whole_self(ctx, b, fl, bb, p, ty):
+    """The dropped place is `*self` itself (assignment of a new value to the whole receiver) or a local that received
+    mem::replace / mem::take / mem::swap of `self`; `ty` is the receiver's own type."""
+    if b.arg_count < 1:
+        return False
+    self_ty = b.locals[1]
+    for pre in ("&mut ", "&"):
+        if self_ty.startswith(pre):
+            self_ty = self_ty[len(pre):]
+            break
+    else:
+        return False
+    if ty != self_ty:
+        return False
+    if p["l"] == 1 and [e["k"] for e in p["p"]] == ["deref"]:
+        return True
+    if not p["p"]:
+        e = fl.local_expr(p["l"])
+        if e[0] == "call" and re.search(r"core::mem::(replace|take)$", e[1] or "") and e[2] and strip_refs(e[2][0]) == ("param", 1):
+            return True
+    return False
+
+
 def _callable_params(b):
     """Names of type parameters that the body CALLS (receiver of Fn / FnMut / FnOnce calls): generic callables."""
     out = set()
@@ -353,6 +376,11 @@ def r6_5(ctx, R):
                 # (d') the rejected child taken out of the Err payload and dropped on the refusal path, which only panics
                 ok = True
                 why = "refused child dropped on the refusal path of a panicking push (no return reachable)"
+            elif p and _replaces_whole_self(ctx, b, fl, bb, p, ty):
+                # (e) `*self = fresh` / `drop(mem::replace(self, fresh))`: the whole collection is dropped, by its own drop glue,
+                # exactly as if the caller had dropped it
+                ok = True
+                why = "the old value of the whole collection (*self) is dropped when it is replaced"
             elif how == "assume_init_drop" and any(b in c07.impl_fns_of(ctx, sp) for sp in c07.mu_structs(ctx)):
                 ok = True
                 why = "release helper of a MaybeUninit buffer struct (covered by R6.1 / C07 R7.1)"
